@@ -1,7 +1,90 @@
 import Rie.Oracle.Core
-/-! Oracle adaptors (line protocol ↔ model) — filled in by the Supervisor work package. -/
-namespace Rie.Oracle
+import Rie.Model.Supervisor
+/-! Oracle adaptor (line protocol ↔ `Rie.Supervisor`) for the `supdrv` harness (C19).
 
-def supervisorModels : List (String × Model) := []
+```
+init
+op exec <name> ok|fail            obs ret=ok pid=<model pid> | ret=starterr
+op exit <pid> code:<n>|sig:<n>    obs ev=<name>:<status> | ev=-        (the event the harness received)
+op terminate <name>               obs ret=ok | ret=nosuchentity
+op kill <name> past|ahead <0|1>   obs ret=<class> ev=<name>:sig:9 | ev=-   (<0|1> = dies in time)
+op foreign <call> <name>          obs ret=ok                             (domain ≠ "runtime")
+op snap                           obs live=<k> <name>=[<status>,…] …     (names ascending, statuses sorted)
+```
+Names and pids are case-local numbers. -/
+namespace Rie.Oracle
+open Rie
+
+def showStatus : Supervisor.Status → String
+  | .code n => s!"code:{n}"
+  | .sig n => s!"sig:{n}"
+
+def parseStatus (w : String) : Option Supervisor.Status :=
+  match w.splitOn ":" with
+  | ["code", n] => n.toNat?.map .code
+  | ["sig", n] => n.toNat?.map .sig
+  | _ => none
+
+def showSupRet : Supervisor.Ret → String
+  | .unit => "-" | .ok => "ok" | .startErr => "starterr" | .noSuchEntity => "nosuchentity"
+  | .badDeadline => "baddeadline" | .timedOut => "timedout"
+
+def parseBool01 (w : String) : Option Bool :=
+  if w == "1" then some true else if w == "0" then some false else none
+
+def parseSupOp : List String → Option Supervisor.Op
+  | ["exec", n, "ok"] => n.toNat?.map (.exec · true)
+  | ["exec", n, "fail"] => n.toNat?.map (.exec · false)
+  | ["exit", p, st] => do some (.exit (← p.toNat?) (← parseStatus st))
+  | ["terminate", n] => n.toNat?.map .terminate
+  | ["kill", n, "past", d] => do some (.kill (← n.toNat?) true (← parseBool01 d))
+  | ["kill", n, "ahead", d] => do some (.kill (← n.toNat?) false (← parseBool01 d))
+  | ["foreign", _, _] => some .foreign
+  | _ => none
+
+def insertSorted (x : String) : List String → List String
+  | [] => [x]
+  | y :: ys => if x < y then x :: y :: ys else y :: insertSorted x ys
+
+def sortStrings (l : List String) : List String := l.foldr insertSorted []
+
+def insertNat (x : Nat) : List Nat → List Nat
+  | [] => [x]
+  | y :: ys => if x < y then x :: y :: ys else if x == y then y :: ys else y :: insertNat x ys
+
+/-- the event that the last step appended (if any) -/
+def newEvent (before after : Supervisor.Sup) : String :=
+  if after.events.length > before.events.length then
+    match after.events.getLast? with
+    | some e => s!"{e.name}:{showStatus e.status}"
+    | none => "-"
+  else "-"
+
+def showSnap (s : Supervisor.Sup) : String :=
+  let live := s.procs.countP (fun p => !p.isExited)
+  let names := (s.events.map (·.name)).foldr insertNat []
+  let parts := names.map fun n =>
+    let sts := sortStrings ((s.events.filter (·.name == n)).map (fun e => showStatus e.status))
+    s!"{n}=[{",".intercalate sts}]"
+  " ".intercalate (s!"live={live}" :: parts)
+
+def supervisorModel : Model where
+  σ := Supervisor.Sup
+  init := fun _ => some Supervisor.init
+  step := fun s ws =>
+    match ws with
+    | ["snap"] => some (s, showSnap s)
+    | _ => do
+      let o ← parseSupOp ws
+      let r := Supervisor.step s o
+      let obs := match o with
+        | .exec _ true => s!"ret={showSupRet r.2} pid={s.procs.length}"
+        | .exec _ false => s!"ret={showSupRet r.2}"
+        | .exit _ _ => s!"ev={newEvent s r.1}"
+        | .kill _ _ _ => s!"ret={showSupRet r.2} ev={newEvent s r.1}"
+        | _ => s!"ret={showSupRet r.2}"
+      some (r.1, obs)
+
+def supervisorModels : List (String × Model) := [("supervisor", supervisorModel)]
 
 end Rie.Oracle
